@@ -277,12 +277,31 @@ fn auto_restart_expr_in_cmd_node() -> Option<String> {
 
 /// The node binary is launched as the service manager would launch the definition: its arguments and its environment.
 fn run_antnode(bin: &Path, args: &[std::ffi::OsString], environment: &Option<Vec<(String, String)>>) -> (Option<i32>, String, String) {
+    run_antnode_with(bin, args, environment, "ANTNODE_VERIF_DUMP_OPT")
+}
+
+/// The configuration the node is about to run with (second hook, late in `main`: after the network id, the EVM
+/// network, the directories, the identity and the logging were set up), as `key=value` pairs.
+fn effective_config(bin: &Path, args: &[std::ffi::OsString], environment: &Option<Vec<(String, String)>>) -> Result<std::collections::BTreeMap<String, String>, String> {
+    let (code, out, err) = run_antnode_with(bin, args, environment, "ANTNODE_VERIF_DUMP_EFFECTIVE");
+    if code != Some(0) {
+        return Err(format!("exit {code:?} {err}"));
+    }
+    let m: std::collections::BTreeMap<String, String> =
+        out.lines().filter_map(|l| l.strip_prefix("VERIF-EFFECTIVE ")).filter_map(|l| l.split_once('=')).map(|(k, v)| (k.to_string(), v.to_string())).collect();
+    if m.is_empty() {
+        return Err("the node printed no effective configuration".into());
+    }
+    Ok(m)
+}
+
+fn run_antnode_with(bin: &Path, args: &[std::ffi::OsString], environment: &Option<Vec<(String, String)>>, hook: &str) -> (Option<i32>, String, String) {
     let mut cmd = std::process::Command::new(bin);
     cmd.args(args).env_remove("ANT_PEERS").env_remove("ANT_LOG");
     for (k, v) in environment.iter().flatten() {
         cmd.env(k, v);
     }
-    let out = cmd.env("ANTNODE_VERIF_DUMP_OPT", "1").output();
+    let out = cmd.env(hook, "1").output();
     match out {
         Ok(o) => (o.status.code(), String::from_utf8_lossy(&o.stdout).to_string(), String::from_utf8_lossy(&o.stderr).chars().take(300).collect()),
         Err(e) => (None, String::new(), format!("{e}")),
@@ -383,6 +402,53 @@ fn one_config(run: &Run, bin: &Path, choice: &[usize], evm: usize, auto_restart_
         for (what, needle) in &expect {
             if !dump1.contains(needle.as_str()) {
                 run.violation("intended-configuration", what, format!("option {what}: the node's parsed options do not show `{}` ({desc})", needle.replace('\n', " ")), desc.clone());
+            }
+        }
+    }
+    // what the node is about to run with, not only how it parsed the command line: the settings take effect in
+    // `main` between parsing and start-up (network id into the protocol strings, directories, addresses, identity)
+    if c1 == Some(0) && c2 == Some(0) {
+        let c = |name: &str| choice[OPTS.iter().position(|o| o.0 == name).unwrap()];
+        match (effective_config(bin, &install_ctx.args, &install_ctx.environment), effective_config(bin, &upgrade_ctx.args, &upgrade_ctx.environment)) {
+            (Ok(e1), Ok(e2)) => {
+                if e1 != e2 {
+                    let diff: Vec<String> = e1.iter().filter(|(k, v)| e2.get(*k) != Some(*v)).map(|(k, v)| format!("{k}: {v} -> {:?}", e2.get(k))).take(4).collect();
+                    run.violation("upgrade-keeps-settings", "effective-configuration", format!("the upgraded definition makes the node run with another configuration: {diff:?} ({desc})"), desc.clone());
+                }
+                let id = if c("network_id") == 1 { "7" } else { "1" };
+                let mut want: Vec<(&str, String)> = vec![
+                    ("network_id", id.to_string()),
+                    ("root_dir", dir.join("Node-Data").join("antnode1").display().to_string()),
+                    ("log_output_dest", dir.join("Node-Logs").join("antnode1").display().to_string()),
+                    ("rewards_address", format!("{:?}", RewardsAddress::from([0x11u8; 20]))),
+                    ("home_network", (c("home_network") == 1).to_string()),
+                    ("local", (c("local") == 1).to_string()),
+                    ("node_socket_addr", format!("{}:{}", if c("node_ip") == 1 { "10.9.8.7" } else { "0.0.0.0" }, if c("node_port") == 1 { 12001 } else { 0 })),
+                ];
+                if c("rpc_port") == 1 {
+                    want.push(("rpc", "Some(127.0.0.1:13001)".to_string()));
+                }
+                for (k, v) in &want {
+                    if e1.get(*k) != Some(v) {
+                        run.violation("intended-configuration", &format!("effective/{k}"), format!("the node is about to run with {k} = {:?}, the definition was written for {v} ({desc})", e1.get(*k)), desc.clone());
+                    }
+                }
+                // every protocol string the node announces or answers to carries the network id
+                for k in ["identify_protocol", "identify_node_version", "req_response_version", "protocol_in_use"] {
+                    let ok = e1.get(k).map(|v| v.rsplit('/').next() == Some(id)).unwrap_or(false);
+                    if !ok {
+                        run.violation("intended-configuration", &format!("effective/{k}"), format!("network id {id}: the node's {k} is {:?} ({desc})", e1.get(k)), desc.clone());
+                    }
+                }
+                let evm_ok = e1.get("evm_network").map(|v| match evm { 0 => v == "ArbitrumOne", 1 => v == "ArbitrumSepolia", _ => v.contains("CustomNetwork") && v.contains("127.0.0.1") && v.contains("8545") && v.contains("5fbdb2315678afecb367f032d93f642f64180aa3") && v.contains("8464135c8f25da09e49bc8782676a84730c318bc") }).unwrap_or(false);
+                if !evm_ok {
+                    run.violation("intended-configuration", "effective/evm_network", format!("the node is about to run on {:?} ({desc})", e1.get("evm_network")), desc.clone());
+                }
+                run.count("effective_configurations_compared", 1);
+            }
+            (a, b) => {
+                let e = a.err().or(b.err()).unwrap_or_default();
+                run.violation("antnode-accepts-arguments", "start-up", format!("the node accepts the argument list but fails before start-up: {e} ({desc})"), desc.clone());
             }
         }
     }
